@@ -152,14 +152,19 @@ def run_items(case):
     mk, fk, seed = case["mesh"], case["fk"], case["seed"]
     mesh = zoo.make(mk, "aniso" if zoo.BASE[mk][1] == 2 else "strip", seed)
     d = mesh.dim
-    spec = [("a", 1.0, 0.3, 1.0, 0.25), ("b", 3.0, 0.2, 2.0, None), ("c", 0.5, 0.4, 0.7, 3.0)]  # name, E, nu, density, multiplier
+    spec = [("a", 1.0, 0.3, 1.0, 0.25), ("b", 3.0, 0.2, 2.0, None), ("c", 0.5, 0.4, 0.7, 3.0), ("d", 2.0, 0.25, 0.9, 0.0)]  # name, E, nu, density, multiplier (0: stiffness switched off, mass kept)
     spectra = {}
     for r in (1, 2, 3):
-        for order in itertools.permutations(range(3), r):
+      for order in itertools.permutations(range(4), r):
+        if order == (3,):
+            continue  # (no stiffness at all)
+        # usex0: the analysis is given a separate top-level container (the boundaries live on ITS fields), not the items' own
+        for usex0 in ((False, True) if r <= 2 else (False,)):
             region = zoo.region(mk, mesh)
             Fc = fem.Field if fk == "3d" else fem.FieldPlaneStrain
-            field = fem.FieldContainer([Fc(region, dim=d)])
-            items = [fem.SolidBody(fem.LinearElasticLargeStrain(E=spec[i][1], nu=spec[i][2]), field, density=spec[i][3], multiplier=spec[i][4]) for i in order]
+            own = fem.FieldContainer([Fc(region, dim=d)])
+            field = fem.FieldContainer([Fc(region, dim=d)]) if usex0 else own
+            items = [fem.SolidBody(fem.LinearElasticLargeStrain(E=spec[i][1], nu=spec[i][2]), own, density=spec[i][3], multiplier=spec[i][4]) for i in order]
             P = mesh.points
             bounds = {"fix": fem.Boundary(field[0], mask=np.isclose(P[:, 0], P[:, 0].min()))}
             dof0, dof1 = fem.dof.partition(field, bounds)
@@ -177,8 +182,14 @@ def run_items(case):
             job.evaluate(x0=field, k=k, v0=1.0 + zoo.offarr(seed, 1500, (len(dof1),)))
             st["trans"] += 1
             st["states"] += 1
-            lab = "order=" + "".join(spec[i][0] for i in order)
+            lab = "order=" + "".join(spec[i][0] for i in order) + ("/x0=separate" if usex0 else "")
             lam_, V = np.asarray(job.eigenvalues), np.asarray(job.eigenvectors)
+            if V.shape != (len(dof1), k):
+                bad(f"{lab}/shape", "eigenvector shape vs the free unknowns of the container the analysis was given", list(V.shape), [len(dof1), k])
+                continue
+            f2_, _ = job.extract(n=0, x0=field, inplace=False)
+            if np.abs(f2_[0].values.ravel()[dof0]).max() > 0:
+                bad(f"{lab}/prescribed", "extracted mode shape must vanish on prescribed unknowns", float(np.abs(f2_[0].values.ravel()[dof0]).max()), 0)
             Kn = np.abs(K1).max()
             for j in range(k):
                 v = V[:, j]
@@ -189,7 +200,8 @@ def run_items(case):
             if np.abs(np.sort(lam_) - dense[:k]).max() > 1e-7 * abs(dense[k]):
                 bad(f"{lab}/spectrum", "returned eigenvalues vs the k smallest of the dense pencil of the item list", np.sort(lam_).tolist(), dense[:k].tolist(), 1e-7)
             nontrivial.append(lab)
-            spectra.setdefault(tuple(sorted(order)), []).append((lab, np.sort(lam_)))
+            if not usex0:
+                spectra.setdefault(tuple(sorted(order)), []).append((lab, np.sort(lam_)))
             # the items themselves must not have been modified by the analysis (a second analysis gives the same spectrum)
             job2 = fem.FreeVibration(items, bounds)
             job2.evaluate(x0=field, k=k, v0=1.0 + zoo.offarr(seed, 1500, (len(dof1),)))
